@@ -4,12 +4,15 @@ C14 — Catchpoint labels depend only on the ledger history.
 Model: AlgoVerif/Model/Catchpoint.lean — `Hist.label H p hist r` (the label as a function of the history: C15 leaves of the state at
 r − lookback, C17 canonical trie root, C15 label buffer) and the tracker's first/second-stage bookkeeping machine `Tr` / `step`
 (newBlock, produceCommittingTask with calculateFirstStageRounds, commitRound as one transaction, the post-commit actions one by one,
-crash + recoverFromCrash, trie Commit/Evict/reload at any time).  A flush schedule, the restart / crash points and the trie memory
-configuration are the event list.
+crash / restart with catchpoint tracking ENABLED or DISABLED for the new lifetime — initializeHashes resets (and, when enabled,
+rebuilds) the trie iff the accounts hash round differs from the DB round; commits without tracking leave the trie alone and stamp hash
+round 0 — + recoverFromCrash, trie Commit/Evict/reload at any time).  A flush schedule, the restart / crash points, the
+enable/disable history and the trie memory configuration are the event list.
 
 FULL (for the model, all histories, all event lists):
   * `labels_sound`                 every label a run creates for round r is `Hist.label … r`;
-  * `label_schedule_independent`   two runs over the same history — ANY event lists: flush schedules, restarts, crashes between the
+  * `label_schedule_independent`   two runs over the same history — ANY event lists: flush schedules, tracking switched off and on
+                                   again across restarts (with commits in between), restarts, crashes between the
                                    commit transaction and every post-commit action, trie housekeeping — never create different labels
                                    for the same round; `label_sequences_equal`: if they created labels for the same rounds, the
                                    label sequences are equal;
@@ -43,17 +46,27 @@ structure HistOK (H : Bytes → Bytes) (h : Hist) : Prop where
   genKeys : KeysNodup h.genesis
   leafInj : ∀ a b, LeafInj H (h.stateAt a ++ h.stateAt b)
 
-/-- the bookkeeping invariant -/
-structure Inv (H : Bytes → Bytes) (p : Params) (h : Hist) (σ : Tr) : Prop where
+/-- the bookkeeping invariant, part 1 (everything that does not relate `writingFS` to the pending work) -/
+structure InvCore (H : Bytes → Bytes) (p : Params) (h : Hist) (σ : Tr) : Prop where
   latest_le : σ.latest ≤ h.rounds.length
   db_le : σ.dbRound ≤ σ.latest
   rows_eq : σ.rows = h.stateAt σ.dbRound
   aux_eq : σ.aux = h.auxAt σ.dbRound
-  trie_ok : TrieOK σ.trie (leavesOf H σ.rows)
+  /-- with tracking enabled the hash round is the DB round … -/
+  en_hash : σ.enabled = true → σ.hashRound = σ.dbRound
+  /-- … and whenever the hash round is the DB round the trie holds exactly the leaves of the rows -/
+  trie_ok : σ.hashRound = σ.dbRound → TrieOK σ.trie (leavesOf H σ.rows)
+  /-- finishFirstStage is only ever pending on a valid trie -/
+  fs_hash : Act.fs ∈ σ.pending → σ.hashRound = σ.dbRound
   fs_ok : ∀ a i, (a, i) ∈ σ.firstStage → i = infoAt H h a
   unf_ok : ∀ r bh, (r, bh) ∈ σ.unfinished → h.blockHash r = some bh ∧ p.lookback < r
   pend_ok : ∀ r bh, Act.cp r bh ∈ σ.pending → h.blockHash r = some bh ∧ p.lookback < r
   out_ok : ∀ r s, (r, s) ∈ σ.out → h.label H p r = some s
+
+/-- the bookkeeping invariant -/
+structure Inv (H : Bytes → Bytes) (p : Params) (h : Hist) (σ : Tr) : Prop extends InvCore H p h σ where
+  /-- an unfinished first stage is always scheduled (by commitRound or by recoverFromCrash) -/
+  wfs_pend : σ.writingFS = true → Act.fs ∈ σ.pending
 
 theorem keysNodup_stateAt {H : Bytes → Bytes} {h : Hist} (ok : HistOK H h) (a : Nat) : KeysNodup (h.stateAt a) :=
   keysNodup_foldRounds _ ok.genKeys
@@ -63,11 +76,14 @@ theorem inv_init {H : Bytes → Bytes} (p : Params) {h : Hist} (ok : HistOK H h)
   db_le := Nat.le_refl _
   rows_eq := by simp [Tr.init, Hist.stateAt]
   aux_eq := by simp [Tr.init, Hist.auxAt]
-  trie_ok := trieOK_buildTrie ok.hashLen _
+  en_hash := fun _ => rfl
+  trie_ok := fun _ => trieOK_buildTrie ok.hashLen _
+  fs_hash := by intro hm; simp [Tr.init] at hm
   fs_ok := by intro a i hm; simp [Tr.init] at hm
   unf_ok := by intro r bh hm; simp [Tr.init] at hm
   pend_ok := by intro r bh hm; simp [Tr.init] at hm
   out_ok := by intro r s hm; simp [Tr.init] at hm
+  wfs_pend := by intro hm; simp [Tr.init] at hm
 
 /-! ### arithmetic of produceCommittingTask -/
 
@@ -190,13 +206,14 @@ theorem label_of_info {H : Bytes → Bytes} {p : Params} {h : Hist} {r : Nat} {b
   rw [if_pos hl, hb]
   rfl
 
-theorem inv_runAct {H : Bytes → Bytes} {p : Params} {h : Hist} (ok : HistOK H h) {σ : Tr} (inv : Inv H p h σ)
-    (a : Act) (ha : ∀ r bh, a = .cp r bh → h.blockHash r = some bh ∧ p.lookback < r) : Inv H p h (runAct H p σ a) := by
+theorem inv_runAct {H : Bytes → Bytes} {p : Params} {h : Hist} (ok : HistOK H h) {σ : Tr} (inv : InvCore H p h σ)
+    (a : Act) (ha : ∀ r bh, a = .cp r bh → h.blockHash r = some bh ∧ p.lookback < r)
+    (hfs : a = .fs → σ.hashRound = σ.dbRound) : InvCore H p h (runAct H p σ a) := by
   cases a with
-  | evict => exact { inv with trie_ok := trieOK_op inv.trie_ok _ }
+  | evict => exact { inv with trie_ok := fun hh => trieOK_op (inv.trie_ok hh) _ }
   | fs =>
-    obtain ⟨hroot, htrie⟩ := trieOK_root H (allLen_leaves ok.hashLen σ.rows) inv.trie_ok
-    refine { inv with trie_ok := htrie, fs_ok := ?_ }
+    obtain ⟨hroot, htrie⟩ := trieOK_root H (allLen_leaves ok.hashLen σ.rows) (inv.trie_ok (hfs rfl))
+    refine { inv with trie_ok := fun _ => htrie, fs_ok := ?_ }
     intro a i hm
     simp only [runAct, insertInfo, List.mem_cons, List.mem_filter] at hm
     rcases hm with hm | hm
@@ -232,6 +249,20 @@ theorem inv_runAct {H : Bytes → Bytes} {p : Params} {h : Hist} (ok : HistOK H 
     · exact { inv with fs_ok := fun a i hm => inv.fs_ok a i (List.mem_filter.1 hm).1 }
     · exact inv
 
+/-- runAct touches neither the pending list nor — except for `fs`, which clears it — the first-stage flag -/
+theorem runAct_pending (H : Bytes → Bytes) (p : Params) (σ : Tr) (a : Act) :
+    (runAct H p σ a).pending = σ.pending ∧ (a ≠ .fs → (runAct H p σ a).writingFS = σ.writingFS) ∧
+      (a = .fs → (runAct H p σ a).writingFS = false) := by
+  cases a with
+  | evict => exact ⟨rfl, fun _ => rfl, fun h => by cases h⟩
+  | fs => exact ⟨rfl, fun h => absurd rfl h, fun _ => rfl⟩
+  | cp r bh =>
+    simp only [runAct]
+    cases lookupInfo σ.firstStage (r - p.lookback) <;> exact ⟨rfl, fun _ => rfl, fun h => by cases h⟩
+  | prune =>
+    simp only [runAct]
+    split <;> exact ⟨rfl, fun _ => rfl, fun h => by cases h⟩
+
 theorem inv_step {H : Bytes → Bytes} {p : Params} {h : Hist} (ok : HistOK H h) {σ : Tr} (inv : Inv H p h σ) (e : Ev) :
     Inv H p h (step H p h σ e) := by
   cases e with
@@ -246,32 +277,50 @@ theorem inv_step {H : Bytes → Bytes} {p : Params} {h : Hist} (ok : HistOK H h)
     split
     · rename_i hg
       obtain ⟨hp, hdb, htl, _⟩ := hg
-      have hle := calc_newOffset_le σ.dbRound (t - σ.dbRound) σ.reenable p.interval p.lookback
-      generalize calcFirstStageRounds σ.dbRound (t - σ.dbRound) σ.reenable p.interval p.lookback = fs at *
-      have hrows : List.foldl applyRound σ.rows ((h.rounds.drop σ.dbRound).take fs.newOffset) = h.stateAt (σ.dbRound + fs.newOffset) := by
-        rw [stateAt_add, inv.rows_eq]
-      refine ⟨inv.latest_le, by simp only; omega, hrows, rfl, ?_, inv.fs_ok, ?_, ?_, inv.out_ok⟩
-      · simp only
-        have := trieOK_updateTrie ok.hashLen ((h.rounds.drop σ.dbRound).take fs.newOffset)
+      have hnofs : σ.writingFS = false := by
+        cases hw : σ.writingFS with
+        | false => rfl
+        | true => have := inv.wfs_pend hw; rw [hp] at this; cases this
+      cases hen : σ.enabled with
+      | true =>
+        simp only [if_true]
+        have hle := calc_newOffset_le σ.dbRound (t - σ.dbRound) σ.reenable p.interval p.lookback
+        generalize calcFirstStageRounds σ.dbRound (t - σ.dbRound) σ.reenable p.interval p.lookback = fs at *
+        have hrows : List.foldl applyRound σ.rows ((h.rounds.drop σ.dbRound).take fs.newOffset) = h.stateAt (σ.dbRound + fs.newOffset) := by
+          rw [stateAt_add, inv.rows_eq]
+        have htrie := trieOK_updateTrie ok.hashLen ((h.rounds.drop σ.dbRound).take fs.newOffset)
           (by rw [inv.rows_eq]; exact keysNodup_stateAt ok _)
-          (by rw [hrows, inv.rows_eq]; exact ok.leafInj _ _) inv.trie_ok
-        exact this
-      · intro r bh hm
-        simp only at hm
-        rcases List.mem_append.1 hm with hm | hm
-        · exact inv.unf_ok r bh hm
-        · obtain ⟨hr, hb⟩ := mem_cpHashes hm
-          exact ⟨hb, (catchpointRounds_spec hr).1⟩
-      · intro r bh hm
-        simp only [List.mem_append, List.mem_cons, List.mem_map, List.not_mem_nil, or_false] at hm
-        rcases hm with ((hm | hm) | hm) | hm
-        · cases hm
-        · split at hm <;> simp at hm
-        · obtain ⟨x, hx, hxe⟩ := hm
-          obtain ⟨rfl, rfl⟩ := Act.cp.inj hxe
-          obtain ⟨hr, hb⟩ := mem_cpHashes (r := x.1) (bh := x.2) hx
-          exact ⟨hb, (catchpointRounds_spec hr).1⟩
-        · cases hm
+          (by rw [hrows, inv.rows_eq]; exact ok.leafInj _ _) (inv.trie_ok (inv.en_hash hen))
+        refine ⟨⟨inv.latest_le, by simp only; omega, hrows, rfl, fun _ => rfl, fun _ => htrie, fun _ => rfl, inv.fs_ok, ?_, ?_, inv.out_ok⟩, ?_⟩
+        · intro r bh hm
+          simp only at hm
+          rcases List.mem_append.1 hm with hm | hm
+          · exact inv.unf_ok r bh hm
+          · obtain ⟨hr, hb⟩ := mem_cpHashes hm
+            exact ⟨hb, (catchpointRounds_spec hr).1⟩
+        · intro r bh hm
+          simp only [List.mem_append, List.mem_cons, List.mem_map, List.not_mem_nil, or_false] at hm
+          rcases hm with ((hm | hm) | hm) | hm
+          · cases hm
+          · split at hm <;> simp at hm
+          · obtain ⟨x, hx, hxe⟩ := hm
+            obtain ⟨rfl, rfl⟩ := Act.cp.inj hxe
+            obtain ⟨hr, hb⟩ := mem_cpHashes (r := x.1) (bh := x.2) hx
+            exact ⟨hb, (catchpointRounds_spec hr).1⟩
+          · cases hm
+        · intro hw
+          simp only [hnofs, Bool.false_or] at hw
+          simp [hw]
+      | false =>
+        simp only [Bool.false_eq_true, if_false]
+        have hrows : List.foldl applyRound σ.rows ((h.rounds.drop σ.dbRound).take (t - σ.dbRound)) = h.stateAt (σ.dbRound + (t - σ.dbRound)) := by
+          rw [stateAt_add, inv.rows_eq]
+        refine ⟨⟨inv.latest_le, by simp only; omega, hrows, rfl, ?_, ?_, ?_, inv.fs_ok, inv.unf_ok, ?_, inv.out_ok⟩, ?_⟩
+        · intro he; exact absurd he (by simp)
+        · intro hh; simp only at hh; omega
+        · intro hm; simp at hm
+        · intro r bh hm; simp at hm
+        · intro hw; simp only at hw; rw [hnofs] at hw; cases hw
     · exact inv
   | tick =>
     simp only [step]
@@ -279,24 +328,87 @@ theorem inv_step {H : Bytes → Bytes} {p : Params} {h : Hist} (ok : HistOK H h)
     | nil => simp only; exact inv
     | cons a rest =>
       simp only
-      have inv' : Inv H p h { σ with pending := rest } :=
-        { inv with pend_ok := fun r bh hm => inv.pend_ok r bh (by rw [hp]; exact List.mem_cons_of_mem _ hm) }
-      exact inv_runAct ok inv' a (fun r bh ha => inv.pend_ok r bh (by rw [hp, ha]; exact List.mem_cons_self ..))
-  | crash =>
+      have core' : InvCore H p h { σ with pending := rest } :=
+        { inv.toInvCore with
+          pend_ok := fun r bh hm => inv.pend_ok r bh (by rw [hp]; exact List.mem_cons_of_mem _ hm),
+          fs_hash := fun hm => inv.fs_hash (by rw [hp]; exact List.mem_cons_of_mem _ hm) }
+      have core := inv_runAct ok core' a (fun r bh ha => inv.pend_ok r bh (by rw [hp, ha]; exact List.mem_cons_self ..))
+        (fun ha => inv.fs_hash (by rw [hp, ha]; exact List.mem_cons_self ..))
+      obtain ⟨hpend, hkeep, hclr⟩ := runAct_pending H p { σ with pending := rest } a
+      refine ⟨core, ?_⟩
+      intro hw
+      rw [hpend]
+      by_cases ha : a = .fs
+      · rw [hclr ha] at hw; cases hw
+      · rw [hkeep ha] at hw
+        have := inv.wfs_pend hw
+        rw [hp] at this
+        rcases List.mem_cons.1 this with e | hm
+        · exact absurd e.symm ha
+        · exact hm
+  | crash en =>
     simp only [step]
-    refine { inv with trie_ok := trieOK_op inv.trie_ok .reload, pend_ok := ?_ }
-    intro r bh hm
-    simp only [recoveryActs, List.mem_append] at hm
-    rcases hm with hm | hm
-    · split at hm <;> simp at hm
-    · split at hm
-      · cases hm
-      · rcases List.mem_append.1 hm with hm | hm
-        · obtain ⟨x, hx, hxe⟩ := List.mem_map.1 hm
-          obtain ⟨rfl, rfl⟩ := Act.cp.inj hxe
-          exact inv.unf_ok x.1 x.2 hx
+    have hrec : ∀ (τ : Tr), τ.writingFS = σ.writingFS → τ.unfinished = σ.unfinished →
+        (Act.fs ∈ recoveryActs τ → σ.writingFS = true) ∧ (σ.writingFS = true → Act.fs ∈ recoveryActs τ) ∧
+        (∀ r bh, Act.cp r bh ∈ recoveryActs τ → (r, bh) ∈ σ.unfinished) := by
+      intro τ hw hu
+      refine ⟨?_, ?_, ?_⟩
+      · intro hm
+        simp only [recoveryActs, List.mem_append] at hm
+        rcases hm with hm | hm
+        · split at hm
+          · rename_i h1; rw [hw] at h1; exact h1
+          · cases hm
+        · split at hm
+          · cases hm
+          · rcases List.mem_append.1 hm with hm | hm
+            · obtain ⟨x, _, hxe⟩ := List.mem_map.1 hm; cases hxe
+            · split at hm <;> simp at hm
+      · intro h1
+        simp only [recoveryActs, hw, h1, if_true, List.mem_append, List.mem_singleton, true_or]
+      · intro r bh hm
+        simp only [recoveryActs, List.mem_append] at hm
+        rcases hm with hm | hm
         · split at hm <;> simp at hm
-  | trie op => exact { inv with trie_ok := trieOK_op inv.trie_ok op }
+        · split at hm
+          · cases hm
+          · rcases List.mem_append.1 hm with hm | hm
+            · obtain ⟨x, hx, hxe⟩ := List.mem_map.1 hm
+              obtain ⟨rfl, rfl⟩ := Act.cp.inj hxe
+              rw [hu] at hx
+              exact hx
+            · split at hm <;> simp at hm
+    generalize hτ : ({ σ with
+      trie := if σ.hashRound ≠ σ.dbRound then (if en then buildTrie H σ.rows else Store.empty) else σ.trie.reload,
+      hashRound := if σ.hashRound ≠ σ.dbRound ∧ en then σ.dbRound else σ.hashRound,
+      enabled := en, pending := [],
+      reenable := if σ.dbRound < σ.latest then σ.dbRound + 1 + p.lookback else 0 } : Tr) = τ
+    have e1 : τ.writingFS = σ.writingFS := by rw [← hτ]
+    have e2 : τ.unfinished = σ.unfinished := by rw [← hτ]
+    obtain ⟨r1, r2, r3⟩ := hrec τ e1 e2
+    refine ⟨⟨inv.latest_le, inv.db_le, inv.rows_eq, inv.aux_eq, ?_, ?_, ?_, inv.fs_ok, inv.unf_ok, ?_, inv.out_ok⟩, ?_⟩
+    · intro he
+      simp only at he ⊢
+      by_cases hs : σ.hashRound = σ.dbRound
+      · simp [hs]
+      · simp [hs, he]
+    · intro hh
+      simp only at hh ⊢
+      by_cases hs : σ.hashRound = σ.dbRound
+      · simp only [hs, ne_eq, not_true_eq_false, if_false]
+        exact trieOK_op (inv.trie_ok hs) .reload
+      · cases en with
+        | true => simp only [ne_eq, hs, not_false_eq_true, if_true]; exact trieOK_buildTrie ok.hashLen _
+        | false => simp [hs] at hh
+    · intro hm
+      have hs := inv.fs_hash (inv.wfs_pend (r1 hm))
+      simp only
+      simp [hs]
+    · intro r bh hm
+      exact inv.unf_ok r bh (r3 r bh hm)
+    · intro hw
+      exact r2 hw
+  | trie op => exact { inv with trie_ok := fun hh => trieOK_op (inv.trie_ok hh) op }
 
 theorem inv_run {H : Bytes → Bytes} {p : Params} {h : Hist} (ok : HistOK H h) :
     ∀ (evs : List Ev) {σ : Tr}, Inv H p h σ → Inv H p h (run H p h σ evs)
@@ -355,14 +467,14 @@ theorem db_state_exact {H : Bytes → Bytes} (p : Params) {h : Hist} (ok : HistO
 
 /-- a commit whose range contains an eligible first-stage round ends ON that round and schedules finishFirstStage for it -/
 theorem commit_lands_on_first_stage_partial (H : Bytes → Bytes) (p : Params) (h : Hist) (σ : Tr) (t : Nat)
-    (hg : σ.pending = [] ∧ σ.dbRound < t ∧ t ≤ σ.latest ∧ 0 < p.interval)
+    (hg : σ.pending = [] ∧ σ.dbRound < t ∧ t ≤ σ.latest ∧ 0 < p.interval) (hen : σ.enabled = true)
     (hh : (calcFirstStageRounds σ.dbRound (t - σ.dbRound) σ.reenable p.interval p.lookback).has = true) :
     let σ' := step H p h σ (.commit t)
     (σ'.dbRound + p.lookback) % p.interval = 0 ∧ σ.dbRound < σ'.dbRound ∧ σ'.dbRound ≤ t ∧
       Act.fs ∈ σ'.pending ∧ σ'.writingFS = true ∧
       ∀ a, σ'.dbRound < a → a ≤ t → (a + p.lookback) % p.interval ≠ 0 := by
   obtain ⟨h1, h2, h3, h4⟩ := first_stage_exact _ _ _ _ _ hh
-  simp only [step, if_pos hg, hh]
+  simp only [step, if_pos hg, hen, if_true, hh]
   refine ⟨h1, by omega, by omega, by simp, by simp, ?_⟩
   intro a ha1 ha2
   exact h4 a ha1 (by omega)
@@ -370,7 +482,7 @@ theorem commit_lands_on_first_stage_partial (H : Bytes → Bytes) (p : Params) (
 /-- the completeness half of the property (NOT proved): in a crash-free run whose commits never skip a first-stage round
 (`multi = false`) and whose post-commit work is always completed, every catchpoint round up to the DB round gets a label. -/
 def label_complete_Statement (H : Bytes → Bytes) (p : Params) (h : Hist) : Prop :=
-  ∀ evs : List Ev, (∀ e ∈ evs, e ≠ Ev.crash) →
+  ∀ evs : List Ev, (∀ e ∈ evs, ∀ en, e ≠ Ev.crash en) →
     let σ := run H p h (Tr.init H h) evs
     σ.pending = [] →
     (∀ pre t post, evs = pre ++ Ev.commit t :: post →
@@ -404,8 +516,14 @@ def exSchedA : List Ev :=
 /-- spanning flushes (the range (0,2] is cut at the first-stage round 1, (1,4] at 3), a crash before finishFirstStage and one
 before finishCatchpoint, trie housekeeping -/
 def exSchedB : List Ev :=
-  [.block, .block, .commit 2, .tick, .crash, .tick, .tick, .commit 2, .crash, .tick, .tick, .trie (.evict true), .block, .block,
+  [.block, .block, .commit 2, .tick, .crash true, .tick, .tick, .commit 2, .crash true, .tick, .tick, .trie (.evict true), .block, .block,
    .commit 4, .tick, .tick, .trie .reload, .tick, .commit 4, .tick, .tick, .tick]
+
+/-- a lifetime with tracking DISABLED that commits round 1 (the hash round becomes 0), then a restart with tracking enabled (the trie
+is rebuilt from the rows): round 2 gets no label (no first-stage record for round 1), round 4 gets the label of the history -/
+def exSchedC : List Ev :=
+  [.block, .crash false, .commit 1, .tick, .tick, .crash true, .tick, .block, .commit 2, .tick, .tick, .tick, .block, .block,
+   .commit 4, .tick, .tick, .tick, .commit 4, .tick, .tick, .tick]
 
 theorem toyH_len (x : Bytes) : (toyH x).length = 32 := by simp [toyH]
 
@@ -430,6 +548,10 @@ theorem exHist_ok : HistOK toyH exHist where
 /-- … and the two schedules create the labels of rounds 2 and 4 -/
 example : (labels toyH exParams exHist exSchedA).map Prod.fst = [2, 4] ∧
     (labels toyH exParams exHist exSchedB).map Prod.fst = [2, 4] := by decide
+
+example : (labels toyH exParams exHist exSchedC).map Prod.fst = [4] ∧
+    (run toyH exParams exHist (Tr.init toyH exHist) (exSchedC.take 5)).hashRound = 0 ∧
+    (run toyH exParams exHist (Tr.init toyH exHist) (exSchedC.take 6)).hashRound = 1 := by decide
 
 example : labels toyH exParams exHist exSchedA = labels toyH exParams exHist exSchedB :=
   label_sequences_equal exParams exHist_ok _ _ (by decide)
